@@ -138,7 +138,9 @@ def order_tokens(tokens: list):
         else:
             n_operators += 1 if t.type == TokenType.Op1 else 2
 
-            while operators:
+            # Unary operators bind to the operand on their right: they never
+            # force evaluation of operators collected so far
+            while operators and t.type != TokenType.Op1:
                 if t.priority <= operators[-1].priority:
                     operands.append(operators.pop())
                 else:
